@@ -662,7 +662,10 @@ class StatT:
                     v = self.use(ast.unparse(g.args[0]))
                     return '(E.n%s %s)' % (space_of(v), v)
             if f in ('misc.snrm2', 'blas.nrm2'):
-                v = self.use(ast.unparse(node.args[0])); return '(E.n%s %s)' % (space_of(v), v)
+                v = self.use(ast.unparse(node.args[0]))
+                # blas.nrm2 of a cone vector is the norm of the stored array (it reads the unreferenced triangles of 's' blocks), not the cone norm
+                if f == 'blas.nrm2' and space_of(v) == 'Z': return '(E.nZraw %s)' % v
+                return '(E.n%s %s)' % (space_of(v), v)
             if f in DOT:
                 a, b = self.use(ast.unparse(node.args[0])), self.use(ast.unparse(node.args[1]))
                 return '(E.%s %s %s)' % (DOT[f], a, b)
@@ -861,6 +864,18 @@ def gen_decide():
         for v in vec_free + sc_free: out.append('  let %s := i.%s' % (v, v))
         for l in stats_lines: out.append('  ' + l)
         out.append('  { ' + ', '.join('%s := %s' % (f, f) for f in stats_fields) + ' }')
+        # the normalisers resx0, resy0, resz0 of the residuals (assigned once, before the main loop)
+        fn_ = find_func(load(mod), name)
+        NT = StatT(); nlines = []
+        for nm in ('resx0', 'resy0', 'resz0'):
+            asg = [st for st in fn_.body if isinstance(st, ast.Assign) and isinstance(st.targets[0], ast.Name) and st.targets[0].id == nm]
+            if len(asg) != 1: raise Untranslatable('%s: expected exactly one top-level assignment to %s, found %d' % (name, nm, len(asg)))
+            nlines.append((nm, NT.sc(asg[0].value)))
+        nfree = list(NT.free)
+        out.append('/-- the normalisers of the residuals, as assigned before the main loop of `%s` -/' % name)
+        for nm, term in nlines:
+            out.append('def %sDef (E : Env K X Y Z) %s : K := %s' % (nm, ' '.join('(%s : %s)' % (v, space_of(v)) for v in nfree), term))
+        out.append('def normaliserArgs : List String := ' + llist(map(lstr, nfree)))
         # decision
         dfree = sorted(v for v in D.free if v not in ('iters',))
         params = []
